@@ -189,6 +189,8 @@ pub fn block_on<F: Future>(fut: F) -> End<F::Output> {
     let waker = Waker::from(flag.clone());
     let mut cx = Context::from_waker(&waker);
     let mut fut = pin!(fut);
+    // the budget is per simulated process (one block_on), the counter in Sim is per run
+    let mut local_steps: u64 = 0;
     let end = loop {
         if with(|s| s.crashed) {
             break End::Crashed;
@@ -200,9 +202,10 @@ pub fn block_on<F: Future>(fut: F) -> End<F::Output> {
         if with(|s| s.crashed) {
             break End::Crashed;
         }
+        local_steps += 1;
         let over = with(|s| {
             s.steps += 1;
-            s.steps > s.step_budget
+            local_steps > s.step_budget
         });
         if over {
             break End::StepBudget;
